@@ -1,3 +1,162 @@
+//! `lex`: tokens, trivia attachment and CST leaves of one text (C13).
+//! `front`: the front-end and compile entry points on one text (C04); every call runs in a
+//! thread with a 2 MiB stack (tokio's default, the language server's situation).
+use mimium_lang::compiler::parser::{self, GreenNodeArena, GreenNodeId, TokenKind};
 use serde_json::{Value, json};
-pub fn lex(req: &Value) -> Value { json!({"id": req["id"], "todo": true}) }
-pub fn front(req: &Value) -> Value { json!({"id": req["id"], "todo": true}) }
+use std::panic::{AssertUnwindSafe, catch_unwind};
+
+fn leaves(arena: &GreenNodeArena, id: GreenNodeId, out: &mut Vec<usize>) {
+    // iterative: deep trees must not overflow the harness' own stack
+    let mut stack = vec![id];
+    while let Some(n) = stack.pop() {
+        match arena.get(n) {
+            parser::green::GreenNode::Token { token_index, .. } => out.push(*token_index),
+            parser::green::GreenNode::Internal { children, .. } => {
+                for c in children.iter().rev() {
+                    stack.push(*c);
+                }
+            }
+        }
+    }
+}
+
+pub fn lex(req: &Value) -> Value {
+    let text = req["text"].as_str().unwrap_or("").to_string();
+    let t2 = text.clone();
+    let r = catch_unwind(AssertUnwindSafe(move || {
+        let tokens = parser::tokenize(&t2);
+        let pre = parser::preparse(&tokens);
+        let toks: Vec<Value> = tokens
+            .iter()
+            .map(|t| {
+                json!([
+                    format!("{:?}", t.kind),
+                    t.start,
+                    t.length,
+                    t.is_trivia(),
+                    t.kind == TokenKind::Eof
+                ])
+            })
+            .collect();
+        let nontrivia = pre.token_indices.clone();
+        let mut leading: Vec<Value> = vec![];
+        let mut trailing: Vec<Value> = vec![];
+        let mut lk: Vec<_> = pre.leading_trivia_map.iter().collect();
+        lk.sort();
+        for (k, v) in lk {
+            leading.push(json!([k, v]));
+        }
+        let mut tk: Vec<_> = pre.trailing_trivia_map.iter().collect();
+        tk.sort();
+        for (k, v) in tk {
+            trailing.push(json!([k, v]));
+        }
+        let (root, arena, _tokens, errors) = parser::parse_cst(tokens, &pre);
+        let mut lv = vec![];
+        leaves(&arena, root, &mut lv);
+        json!({"toks": toks, "nontrivia": nontrivia, "leading": leading, "trailing": trailing,
+               "leaves": lv, "nerr": errors.len()})
+    }));
+    let bounds: Vec<usize> = (0..=text.len()).filter(|i| text.is_char_boundary(*i)).collect();
+    match r {
+        Ok(mut v) => {
+            let m = v.as_object_mut().unwrap();
+            m.insert("id".into(), req["id"].clone());
+            m.insert("len".into(), json!(text.len()));
+            m.insert("bounds".into(), json!(bounds));
+            v
+        }
+        Err(e) => json!({"id": req["id"], "panic": crate::panic_msg(e), "len": text.len(), "bounds": bounds,
+                         "loc": crate::LAST_PANIC_LOC.with(|l| l.borrow().clone())}),
+    }
+}
+
+/// Run `f` in a thread with a 2 MiB stack; returns Err(message) on panic.
+fn small_stack<T: Send + 'static>(f: impl FnOnce() -> T + Send + 'static) -> Result<T, String> {
+    let h = std::thread::Builder::new()
+        .stack_size(2 << 20)
+        .spawn(move || {
+            std::panic::catch_unwind(AssertUnwindSafe(f)).map_err(|e| {
+                format!(
+                    "{} @ {}",
+                    crate::panic_msg(e),
+                    crate::LAST_PANIC_LOC.with(|l| l.borrow().clone())
+                )
+            })
+        })
+        .unwrap();
+    match h.join() {
+        Ok(r) => r,
+        Err(_) => Err("thread died".into()),
+    }
+}
+
+fn spans_json(errs: &[Box<dyn mimium_lang::utils::error::ReportableError>]) -> Value {
+    Value::Array(
+        errs.iter()
+            .flat_map(|e| e.get_labels())
+            .map(|(loc, _)| json!([loc.span.start, loc.span.end]))
+            .collect(),
+    )
+}
+
+pub fn front(req: &Value) -> Value {
+    use mimium_lang::compiler::parser::{parse_to_expr, tokenize};
+    let text = req["text"].as_str().unwrap_or("").to_string();
+    let apis: Vec<String> = req["apis"]
+        .as_array()
+        .map(|a| a.iter().filter_map(|v| v.as_str().map(String::from)).collect())
+        .unwrap_or_else(|| {
+            ["tokenize", "parse", "analyze", "bytecode", "wasm"]
+                .iter()
+                .map(|s| s.to_string())
+                .collect()
+        });
+    let bounds: Vec<usize> = (0..=text.len()).filter(|i| text.is_char_boundary(*i)).collect();
+    let mut res = serde_json::Map::new();
+    for api in apis {
+        let t = text.clone();
+        let r: Result<Value, String> = match api.as_str() {
+            "tokenize" => small_stack(move || {
+                let toks = tokenize(&t);
+                json!({"kind": "ok", "n": toks.len(), "spans": []})
+            }),
+            "parse" => small_stack(move || {
+                let (_e, _mi, errs) = parse_to_expr(&t, None);
+                json!({"kind": if errs.is_empty() {"ok"} else {"diags"}, "n": errs.len(), "spans": spans_json(&errs)})
+            }),
+            "analyze" => small_stack(move || {
+                let diags = mimium_language_server::verif_analyze(&t);
+                json!({"kind": if diags.is_empty() {"ok"} else {"diags"}, "n": diags.len(),
+                       "spans": diags})
+            }),
+            "bytecode" => small_stack(move || {
+                let mut ctx = mimium_lang::ExecContext::new([].into_iter(), None, mimium_lang::Config::default());
+                ctx.add_system_plugin(mimium_scheduler::get_default_scheduler_plugin());
+                ctx.prepare_compiler();
+                match ctx.get_compiler().unwrap().emit_bytecode(&t) {
+                    Ok(_) => json!({"kind": "ok", "n": 0, "spans": []}),
+                    Err(e) => json!({"kind": "diags", "n": e.len(), "spans": spans_json(&e)}),
+                }
+            }),
+            "wasm" => small_stack(move || {
+                let mut ctx = mimium_lang::ExecContext::new([].into_iter(), None, mimium_lang::Config::default());
+                ctx.add_system_plugin(mimium_scheduler::get_default_scheduler_plugin());
+                ctx.prepare_compiler();
+                match ctx.get_compiler().unwrap().emit_wasm(&t) {
+                    Ok(_) => json!({"kind": "ok", "n": 0, "spans": []}),
+                    Err(e) => json!({"kind": "diags", "n": e.len(), "spans": spans_json(&e)}),
+                }
+            }),
+            other => Err(format!("unknown api {other}")),
+        };
+        res.insert(
+            api,
+            match r {
+                Ok(v) => v,
+                Err(m) => json!({"kind": "panic", "msg": m}),
+            },
+        );
+    }
+    json!({"id": req["id"], "len": text.len(), "bounds": bounds, "res": res})
+}
